@@ -260,11 +260,7 @@ def r_dirflow(F, cfg):
                     continue
                 bad.append((node, "%s is %s, not the function's own direction parameter" % (_what(kind, detail), _fmt(eff))))
         elif ident.endswith("_forward") or ident.endswith("_inverse"):
-            n_wrap += 1
-            want = "Forward" if ident.endswith("_forward") else "Inverse"
-            for kind, node, eff, detail in srcs:
-                if eff != ("C", want):
-                    bad.append((node, "%s passes %s, expected the constant %s" % (ident, _fmt(eff), want)))
+            pass    # checked below for every function of that name, whether or not it mentions a direction itself
         else:
             # no direction parameter
             dsrc = sorted({eff for kind, node, eff, detail in srcs if eff[0] == "D"}, key=str)
@@ -305,6 +301,37 @@ def r_dirflow(F, cfg):
                 R.violation("dirflow:%s:%s" % (b.name, msg[:90]), b.where(node), "%s: %s" % (b.name, msg))
         else:
             R.ok({"fn": b.name, "direction_uses": len(uses), "sources": sorted({_fmt(e) for _, _, e, _ in srcs})} if n_fn % 25 == 1 else None, nontrivial=True)
+    # --- forward/inverse wrappers: `*_forward` plans Forward only, `*_inverse` plans Inverse only -- whether the
+    #     direction is passed as a constant or delegated to another wrapper (whose own name is its contract)
+    for b in sorted(F.bodies.values(), key=lambda x: x.id):
+        ident = b.r.get("ident", "")
+        if b.kind == "Closure" or not (ident.endswith("_forward") or ident.endswith("_inverse")):
+            continue
+        n_wrap += 1
+        want = "Forward" if ident.endswith("_forward") else "Inverse"
+        wsuffix = "_forward" if want == "Forward" else "_inverse"
+        bad = []
+        seen = 0
+        for body in [b] + [cb for cb in F.bodies.values() if cb.kind == "Closure" and F.closure_parent(cb) is b]:
+            for bi, t in body.calls():
+                c = F.callee_of(t)
+                for a in t["args"]:
+                    if _is_dir_operand(F, body, a):
+                        seen += 1
+                        eff = source_of(F, body, a)
+                        if eff != ("C", want):
+                            bad.append((t, "%s passes %s, expected the constant %s" % (ident, _fmt(eff), want)))
+                if c:
+                    cname = c["p"].rsplit("::", 1)[-1]
+                    if cname.endswith("_forward") or cname.endswith("_inverse"):
+                        seen += 1
+                        if not cname.endswith(wsuffix):
+                            bad.append((t, "%s delegates to %s" % (ident, cname)))
+        if bad:
+            for node, msg in bad:
+                R.violation("dirflow:%s:%s" % (b.name, msg[:90]), b.where(node), "%s: %s" % (b.name, msg))
+        else:
+            R.ok({"wrapper": b.name, "plans": want, "direction_sites": seen} if n_wrap % 3 == 1 else None, nontrivial=True)
     # --- read-back
     n_rb = 0
     for i in F.trait_impls("Direction"):
